@@ -643,42 +643,48 @@ func ruleBOOL2(p *Program) *RuleResult {
 		return r.anchorFail(err)
 	}
 	{
-		var ev *ssa.Call
-		for _, b := range eab.Blocks {
-			for _, ins := range b.Instrs {
-				if c, ok := ins.(*ssa.Call); ok {
-					if sc := c.Common().StaticCallee(); sc != nil && sc.Name() == "Evaluate" && strings.Contains(short(sc), "fhirpath.Expression") {
-						ev = c
+		// the root evaluation ((*Expression).Evaluate, wherever it is called from) answers
+		// the pinned collection
+		for _, f := range boolForms {
+			r.count("criterion_hypotheses", 1)
+			an := newAnalyzer()
+			an.maxBlocks = 200
+			evaluated := 0
+			an.fnModel = func(sc *ssa.Function, args []aval) (aval, bool) {
+				if sc.Name() == "Evaluate" && strings.Contains(short(sc), "fhirpath.Expression") {
+					evaluated++
+					return okTuple(st.formColl(f)), true
+				}
+				return aval{}, false
+			}
+			res := an.analyze(eab, []aval{nonnil("e"), top, top})
+			if evaluated == 0 {
+				r.undecided("EvaluateAsBool|shape", "Evaluate call not found", p.pos(eab.Pos()), "unsupported shape")
+				break
+			}
+			got := "?"
+			if len(res.rets) >= 1 && len(res.hazards) == 0 {
+				for i, ri := range res.rets {
+					g := "?"
+					if retIsErr(ri) {
+						g = "error"
+					} else if ri.vals[0].k == kConst && ri.vals[0].c.Kind() == constant.Bool {
+						g = fmt.Sprint(constant.BoolVal(ri.vals[0].c))
+					}
+					if i == 0 {
+						got = g
+					} else if g != got {
+						got = "?"
 					}
 				}
 			}
-		}
-		if ev == nil {
-			r.undecided("EvaluateAsBool|shape", "Evaluate call not found", p.pos(eab.Pos()), "unsupported shape")
-		} else {
-			for _, f := range boolForms {
-				r.count("criterion_hypotheses", 1)
-				an := newAnalyzer()
-				an.maxBlocks = 200
-				an.pin[ev] = okTuple(st.formColl(f))
-				res := an.analyze(eab, []aval{nonnil("e"), top, top})
-				got := "?"
-				if len(res.rets) == 1 && len(res.hazards) == 0 {
-					ri := res.rets[0]
-					if retIsErr(ri) {
-						got = "error"
-					} else if ri.vals[0].k == kConst && ri.vals[0].c.Kind() == constant.Bool {
-						got = fmt.Sprint(constant.BoolVal(ri.vals[0].c))
-					}
-				}
-				want := map[int]string{1: "true", 0: "false", -1: "false", -2: "error"}[f.tv]
-				key := "EvaluateAsBool|" + f.name
-				desc := fmt.Sprintf("EvaluateAsBool on %s = %s (want %s)", f.name, got, want)
-				if got == want {
-					r.ok(key, desc, p.pos(eab.Pos()), "SCCP with the evaluation result pinned", true)
-				} else {
-					r.bad(key, desc+hazardText(res), p.pos(eab.Pos()), "EvaluateAsBool must apply singleton evaluation to the result")
-				}
+			want := map[int]string{1: "true", 0: "false", -1: "false", -2: "error"}[f.tv]
+			key := "EvaluateAsBool|" + f.name
+			desc := fmt.Sprintf("EvaluateAsBool on %s = %s (want %s)", f.name, got, want)
+			if got == want {
+				r.ok(key, desc, p.pos(eab.Pos()), "SCCP with the evaluation result pinned", true)
+			} else {
+				r.bad(key, desc+hazardText(res), p.pos(eab.Pos()), "EvaluateAsBool must apply singleton evaluation to the result")
 			}
 		}
 	}
